@@ -245,8 +245,32 @@ def check(tier, seed):
     run.cov["bounded_functions"].append({"functions": ["validate_ast", "SPECIFIED_RULES (26 rule visitors)", "VariablesCollector", "overlapping_fields_can_be_merged.*"],
                                          "bound": "%d documents x 6 verdict computations" % len(texts)})
     run.sample({"document": VALID_TRICKY[0], "transformation": "permute-definitions", "contract": "verdict == reference verdict; unchanged by the transformation"})
+    # --- deductive: the type comparison of the field-merging rule == the specification's SameResponseShape on types --------------
+    import contracts.merging as MG
+    import spec.typealgebra as TA
+    from vf import engine_a
+    from vf.props.c13 import stype_adt
+
+    def stype_to_python(text):
+        from py_gql.schema import InterfaceType, ListType, NonNullType, ObjectType, ScalarType
+        made = {}
+
+        def mk(kind, cls, **kw):
+            def f(n):
+                if (kind, n) not in made:
+                    made[(kind, n)] = cls("%s%d" % (kind, n), **kw)
+                return made[(kind, n)]
+            return f
+        env = {"Leaf": mk("S", ScalarType, serialize=str, parse=str), "Obj": mk("O", ObjectType, fields=[]), "Abs": mk("I", InterfaceType, fields=[]),
+               "List": ListType, "NonNull": NonNullType}
+        return eval(text, {"__builtins__": {}}, env)
+    ns = {k: v for k, v in vars(TA).items() if not k.startswith("__")}
+    inst = engine_a.generic_instantiate({"*": lambda v: stype_to_python(v) if isinstance(v, str) else v})
+    run.cov["parts"]["engine_a"] = engine_a.run(run, MG.CONTRACTS, ns, {"SType": stype_adt()}, inst, jobs=1)
+    run.trusted("spec/typealgebra.shape_conflict (SameResponseShape on types)")
     run.trusted("vf/ref_validate.py: the 26 validation rules of section 5 as comprehension-style predicates (276 self-test cases incl. the specification's own examples)")
-    return run.finish("other", "bounded stand-in: verdict equality with a reference implementation of the specification's validation rules, attribution of "
+    return run.finish("other", "_types_conflict proved equal to SameResponseShape on types for all type expressions (Engine A, induction through its own "
+                               "contract); bounded stand-in: verdict equality with a reference implementation of the specification's validation rules, attribution of "
                                "labelled violations, and verdict invariance under reordering / renaming / re-spacing (Schema.is_subtype, used by the "
                                "variable rules, is proved in C13)",
                       checker_cmd="./check C06 --tier %s" % tier)
